@@ -24,7 +24,11 @@ RULE = ("Well-shaped oriented manifold surfaces: (tri_surface) triangulations fr
         "drawn option combination per function and compared with the base results through the expected transformation law. The all-default "
         "call of every function is issued twice on the base mesh (second call finds the attribute registered by the first); the mesh "
         "(vertices, faces, cells) and every attribute passed as an argument must be unchanged afterwards; one case in five is snapped to an "
-        "integer lattice and handed over with numpy-int64 / python-int coordinates. "
+        "integer lattice and handed over with numpy-int64 / python-int coordinates. Further drawn per case: face / cell rows as list, tuple or "
+        "numpy rows of dtype int64/int32/int16/uint8/uint32; a third of the translations 1e3..1e7 mesh sizes away from the origin "
+        "(tolerances then follow the conditioning L/h); config.sort_neighborhoods on/off; one case in four additionally as numpy float32 "
+        "coordinates (single precision tolerances); weight modes spelled lower / Capitalised / UPPER; an unknown weight mode (must raise) "
+        "before the ordinary calls; early-stopping counts up to 2**53+1 and as numpy.int64; values given as numpy.float32. "
         "(interpolation) every interpolate_/scatter_/average_ function x weight mode x scalar/vector x dense/sparse input and output on "
         "a constant and on a random attribute. (nonconvex_face) one planar simple polygon with 4-8 vertices, star-shaped, with at least "
         "one reflex corner (optionally with an out-of-plane neighbour triangle): face_area / face_normals / face_barycenter / total_area "
@@ -33,8 +37,12 @@ RULE = ("Well-shaped oriented manifold surfaces: (tri_surface) triangulations fr
 ASSUMPTIONS = [
     "faces are planar (relative defect <= 1e-9) and strictly convex with corner angles in [10, 165] degrees (triangles: min angle 8 degrees); "
     "cells have |det| >= 1e-6; no isolated vertices",
-    "scale factors in [1e-6, 1e6] (a third tiny <= 1e-3, a third huge >= 1e3), translations within [-20, 20]^3 on the unit-size mesh "
-    "(tolerances: rel. 1e-9 of the quantity + 1e-12 L^p with L the coordinate magnitude of the mesh at hand)",
+    "scale factors in [1e-6, 1e6] (a third tiny <= 1e-3, a third huge >= 1e3), translations within [-20, 20]^3 or 1e3..1e7 away on the "
+    "unit-size mesh; tolerances: homogeneous quantities of degree p: 1e-9 m + 1e-12 L m^((p-1)/p); dimensionless ones: "
+    "1e-9 max(1,m) + 2e-14 (L/h) max(1,m)^2, with m the magnitude of the quantity, L of the coordinates, h the shortest edge",
+    "config.display_duplicate_attribute_warning is drawn per case (defect C07-6 - accumulating functions added to the attribute "
+    "create_attribute hands back under that switch - was fixed in /repo); complete_edges_from_faces / complete_faces_from_cells stay on (without them "
+    "the meshes have no edges / faces to measure); float32 coordinates are held to single precision only",
     "the oracles for defects C07-4 (face_circumcenter on tiny triangles) and C07-5 (second interpolation into a used output attribute) are active: both were fixed in /repo (8e7d4c7, 966792b)",
     "persistent calls on one mesh use pairwise distinct attribute names (re-creating an existing name is C05's subject)",
     "vertex_normals(mode) is evaluated only on meshes where |sum w n| / sum w >= 0.05 at every vertex (well-defined direction; a folded "
@@ -53,7 +61,7 @@ TOL = 1e-9
 #   recall_existing   : with mouette.config.display_duplicate_attribute_warning = True, create_attribute hands back the attribute that
 #                       already carries the name, and degree / angle_defects / cotan_weights / face_area (>4 sides) accumulate on top of
 #                       its old values (degree doubles on a second degree(mesh)).  While off, the switch is left at the library default.
-PENDING = {"circumcenter_tiny": True, "reused_output": True, "recall_existing": False}
+PENDING = {"circumcenter_tiny": True, "reused_output": True, "recall_existing": True}
 for _k in os.environ.get("C07_PENDING", "").split(","):
     if _k.strip() in PENDING:
         PENDING[_k.strip()] = True
